@@ -328,7 +328,23 @@ fn stream_base(prop: &'static str, tier: Tier) -> BoxedStrategy<Case> {
     // match straddling the refill boundary, searched without the capacity hook
     let bigmode = prop_oneof![
         197 => Just(None),
-        3 => (any::<u16>(), any::<u16>(), any::<u8>(), any::<u16>(), proptest::sample::select(vec![usize::MAX, usize::MAX, 65536, 30000, 4096, 65535])).prop_map(Some),
+        3 => (
+            any::<u16>(),
+            any::<u16>(),
+            any::<u8>(),
+            any::<u16>(),
+            // read schedules for long streams: whole-buffer reads, a short
+            // first read followed by whole-buffer reads, and reads just below
+            // a power of two (buffer-size boundaries)
+            prop_oneof![
+                3 => Just(vec![usize::MAX]),
+                2 => (1usize..=300).prop_map(|a| vec![a, usize::MAX, usize::MAX, usize::MAX]),
+                2 => (10u32..=16, 0usize..=24).prop_map(|(k, j)| vec![(1usize << k) - j]),
+                2 => (10u32..=16, 1usize..=24, 1usize..=400).prop_map(|(k, j, a)| vec![(1usize << k) - j, a, usize::MAX]),
+                1 => proptest::sample::select(vec![4096usize, 65536, 30000, 65535]).prop_map(|a| vec![a]),
+            ],
+        )
+            .prop_map(Some),
     ];
     (cases, sched_strategy(), bigmode)
         .prop_map(|(mut case, sched, bigmode)| {
@@ -336,7 +352,7 @@ fn stream_base(prop: &'static str, tier: Tier) -> BoxedStrategy<Case> {
                 case.patterns.truncate(6);
                 case.haystack = gen::big_stream(&case.patterns, which, back, fill, tail);
                 case.span = (0, case.haystack.len());
-                case.reads = vec![read];
+                case.reads = read;
                 case.spare = None;
                 case.sub = format!("{}+big-stream", case.sub);
                 return case;
